@@ -103,3 +103,50 @@ NOT_APPLICABLE = [
     {"property_id": p, "reason": "check under construction in this session (runtime-monitoring design in DESIGN.md section 5); not yet registered"}
     for p in ["C05", "C06", "C08", "C09", "C10", "C11", "C12", "C13", "C14", "C15", "C16", "C17", "C18", "C19"]
 ]
+
+_DYN_ASSUMPTIONS = [
+    "the shadow set model of harness/src/props/dynamic.rs implements the specified update semantics (valid applied, redundant no-op, invalid rejected without effect)",
+    "brute-force reference semantics on the shadow framework (universe of at most 11 live arguments, so exact)",
+    "histories are sampled from eight shapes over 4-8 labels; nothing is claimed for histories that were not generated",
+]
+
+PROPS["C08"] = {
+    "level": "exploration",
+    "rule": "cases = histories (5-40 operations, up to 400 in thorough) of valid updates interleaved with queries for the six dynamic solver types (both assumption-on-attacks variants with reservation factors 1, 1.25, 1.5, 2, 3, 7.3; the recompute wrapper over each static semantics); every query is judged against brute-force semantics of the shadow framework at that moment. A history is non-trivial when at least one of its queries concerned an argument that is credulously but not skeptically accepted, or a framework without extension; distinct = distinct hash of the whole history + solver configuration. Coverage counters (cache hits, queries right after updates, re-encodings, selector retirements, re-added labels, removal of attackers, PR query then new argument) must all be non-zero.",
+    "assumptions": _DYN_ASSUMPTIONS,
+    "thresholds": {
+        "quick": {"evaluations": 300000, "distinct_nontrivial": 4000,
+                  "counters": {"coverage/queries-with-zero-sat-calls": 1000, "coverage/queries-right-after-update": 1000,
+                               "coverage/re-encodings": 500, "coverage/selector-retirements": 500,
+                               "coverage/re-added-label": 500, "coverage/removed-argument-with-outgoing-attacks": 300,
+                               "coverage/pr-query-then-new-argument": 300, "certificates_checked": 5000,
+                               "histories/DynamicPreferred": 1000, "histories/DynamicCompleteAttacks": 500}},
+        "thorough": {"evaluations": 8000000, "distinct_nontrivial": 100000,
+                     "counters": {"coverage/re-encodings": 10000, "coverage/selector-retirements": 10000}},
+    },
+}
+PROPS["C09"] = {
+    "level": "fault_enumeration",
+    "rule": "cases = C08 histories in which each update is replaced with probability 0.15 by a redundant one (existing argument / attack) or an invalid one (remove unknown or already removed argument / attack, attack from/to unknown argument), at any position; the update call's own result is checked (Err exactly for invalid ones) and every later answer is judged against the shadow framework without the rejected/redundant operation. Non-trivial: the history contains at least one faulty update and a query on a credulously-but-not-skeptically accepted argument (or a framework without extension); distinct = hash of history + configuration.",
+    "assumptions": _DYN_ASSUMPTIONS,
+    "thresholds": {
+        "quick": {"evaluations": 300000, "distinct_nontrivial": 3000,
+                  "counters": {"faulty_updates/invalid/-arg": 1000, "faulty_updates/invalid/+att": 1000,
+                               "faulty_updates/invalid/-att": 1000, "faulty_updates/redundant/+arg": 1000,
+                               "faulty_updates/redundant/+att": 500, "histories/DynamicPreferred": 1000}},
+        "thorough": {"evaluations": 8000000, "distinct_nontrivial": 80000, "counters": {}},
+    },
+}
+_DYN_NOTE = ("Trusted: the shadow model and brute-force oracle of the harness; the SAT-boundary monitor (pass-through) used for call "
+             "counting and the per-query call cap. Only single-argument queries exist for dynamic solvers. Held on the histories generated.")
+MANIFEST_TEXT["C08"] = {
+    "level_text": "History checking of the real dynamic solver objects against an executable sequential model: after every update the shadow framework is advanced, every query's status and certificate is compared with brute-force semantics of the current shadow framework; a per-query SAT-call cap turns runaway loops into verdicts on logical steps; violating histories are minimised before being stored.",
+    "design_ref": "DESIGN.md section 5, C08", "level_note": _DYN_NOTE,
+    "technique": "runtime monitoring: history + executable shadow model, reference semantics per step",
+}
+MANIFEST_TEXT["C09"] = {
+    "level_text": "Fault enumeration over update positions: redundant and invalid updates are injected at random positions (incl. first and last, several per history) of C08-style histories for all six solver types; the result of the faulty call and all later answers are judged against the shadow model that ignores the faulty operation.",
+    "design_ref": "DESIGN.md section 5, C09", "level_note": _DYN_NOTE,
+    "technique": "runtime monitoring: fault injection into update histories, shadow model + reference semantics",
+}
+NOT_APPLICABLE[:] = [e for e in NOT_APPLICABLE if e["property_id"] not in ("C08", "C09")]
